@@ -122,6 +122,9 @@ func oracleRun(c *vkit.Collector) {
 			m := oracleQ[i].rep()
 			m["true_lat_excess"], m["true_lng_excess"] = r[0], r[1]
 			k := oracleQ[i].Kind + ".true-latlng"
+			if r[0] > 3e-8 || r[1] > 3e-8 {
+				k += ".gross" // the known Cap.true-latlng class is the documented <= 1.5e-8 rad asin amplification
+			}
 			if oracleQ[i].Kind == "RectBounder.latBudget(near-pole)" {
 				k = oracleQ[i].Kind
 			}
